@@ -285,10 +285,12 @@ func (r *run) linger() {
 }
 
 func (r *run) ufMap(item int, w mr.Writer[int], cancel func(error)) { r.mapBody(item, w, cancel) }
-func (r *run) ufEach(item int)                                       { r.mapBody(item, nil, nil) }
+func (r *run) ufEach(item int)                                      { r.mapBody(item, nil, nil) }
 
-func (r *run) ufRed(pipe <-chan int, w mr.Writer[int], cancel func(error)) { r.redBody(pipe, w, cancel) }
-func (r *run) ufRedVoid(pipe <-chan int, cancel func(error))             { r.redBody(pipe, nil, cancel) }
+func (r *run) ufRed(pipe <-chan int, w mr.Writer[int], cancel func(error)) {
+	r.redBody(pipe, w, cancel)
+}
+func (r *run) ufRedVoid(pipe <-chan int, cancel func(error)) { r.redBody(pipe, nil, cancel) }
 
 func (r *run) redWrite(w mr.Writer[int], k int) {
 	if w == nil {
